@@ -32,9 +32,19 @@ ProjAttrs(flavour) == IF flavour = "shell" THEN BaseAttrs \cup ShellAttrs ELSE B
 FieldNames(d) == { d.fields[i].name : i \in DOMAIN d.fields }
 FieldOf(d, f) == CHOOSE fd \in Range(d.fields) : fd.name = f
 
+(* Field ORDER is part of a definition: a python task binds a returned tuple to its      *)
+(* outputs by position, and unpositioned shell fields appear in definition order.  The   *)
+(* generated python definitions declare two outputs, deliberately not in alphabetical    *)
+(* order (PyOuts); shell definitions declare none.                                        *)
+Order(d)  == [i \in DOMAIN d.fields |-> d.fields[i].name]
+PyOuts    == <<"zed", "alpha">>
+OutsOf(d) == IF d.flavour = "python" THEN PyOuts ELSE <<>>
+
 Projection(d) ==
   [ flavour |-> d.flavour,
     fields  |-> [f \in FieldNames(d) |-> [a \in ProjAttrs(d.flavour) |-> FieldOf(d, f)[a]]],
+    order   |-> Order(d),
+    outs    |-> OutsOf(d),
     xor     |-> d.xor ]
 
 (* ----- dictionary form: attributes at their default are omitted ----- *)
@@ -44,17 +54,22 @@ AttrDefault == [ type |-> "any", default |-> "nodefault", help |-> "", allowed |
 FieldDict(fd, flavour) ==
   LET keep == { a \in ProjAttrs(flavour) : fd[a] # AttrDefault[a] } IN [a \in keep |-> fd[a]]
 
+(* inputs / outputs are ORDERED mappings: keys in declaration order (order, outs) *)
 ToDict(d) == [ type   |-> d.flavour,
                inputs |-> [f \in FieldNames(d) |-> FieldDict(FieldOf(d, f), d.flavour)],
+               order  |-> Order(d),
+               outs   |-> OutsOf(d),
                xor    |-> d.xor ]
 
 FieldFromDict(fdict, flavour) ==
   [a \in ProjAttrs(flavour) |-> IF a \in DOMAIN fdict THEN fdict[a] ELSE AttrDefault[a]]
 
-(* the re-created class, as a projection (a mapping has no field order) *)
+(* the re-created class, as a projection: fields are created in the mapping's key order *)
 FromDict(dict) ==
   [ flavour |-> dict.type,
     fields  |-> [f \in DOMAIN dict.inputs |-> FieldFromDict(dict.inputs[f], dict.type)],
+    order   |-> dict.order,
+    outs    |-> dict.outs,
     xor     |-> dict.xor ]
 
 RoundTrip(d) == FromDict(ToDict(d))
